@@ -358,6 +358,8 @@ class Runner:
         vac = [p for p in getattr(spec, "required_probes", []) if probes.get(p, 0) == 0]
         for p in vac:
             print(f"VACUOUS probe={p}")
+        if vac and exit_code == 0 and self.max_runs is None:
+            exit_code = 2  # a check whose required situations never arose has decided nothing: harness error, not a pass
         samples = []
         for r in self.results[:2]:
             samples.append({k: r.get(k) for k in ("seed", "origin", "n_ops", "steps", "episodes", "faults", "probes", "shape", "op_kinds") if k in r})
